@@ -301,7 +301,7 @@ pub fn run(ctx: &Ctx) -> i32 {
         tier,
         seed: ctx.seed,
         level: "exploration",
-        rule: "scenario = one listener with limit in {None,0,1,2,3,5} and 4-8 dialers with seeded affinities (runtime KnownPeers edits); 10-40 (thorough 120) non-overlapping steps from {arrival, explicit outbound dial by the limited node, disconnect by either side, affinity change, background High peer}; each arrival is compared with the reference model admit(affinity, limit, established=listener.peers().len() at arrival); admit => connect Ok and NewPeer+listed; reject => connect Err within connect timeout, no NewPeer, listing unchanged, dialer does not list listener; distinct by (limit, outcome mix) The listener's background-dial cap (max_concurrent_outstanding_connecting_connections in {default,0,1,2}) and 0-3 explicit dials of its own that stay pending towards silent addresses are varied as things admission must not depend on.".into(),
+        rule: "scenario = one listener with limit in {None,0,1,2,3,5} and 4-8 dialers with seeded affinities (runtime KnownPeers edits); 10-40 (thorough 120) non-overlapping steps from {arrival, explicit outbound dial by the limited node, disconnect by either side, affinity change, background High peer}; each arrival is compared with the reference model admit(affinity, limit, established=listener.peers().len() at arrival); admit => connect Ok and NewPeer+listed; reject => connect Err within connect timeout, no NewPeer, listing unchanged, dialer does not list listener; distinct by (limit, outcome mix) The listener's background-dial cap (max_concurrent_outstanding_connecting_connections in {default,0,1,2}) and 0-3 explicit dials of its own that stay pending towards silent addresses are varied as things admission must not depend on. Half of the arrivals name the listener's identity (connect_with_peer_id).".into(),
         assumptions: vec!["truly simultaneous arrivals are excluded, as the property states; the world waits for quiescence between steps".into()],
         summary,
         extra: Default::default(),
